@@ -77,27 +77,29 @@ def run(ck: Checker):
     num_folds.fold_sub_div_sqrt(ck, 'C09.NUM')
     ck.floor('C09.NUM', 3)
 
-    # OUT-GUARD
-    n_guard = 0
-    for m, q, fn in R.gen_functions(repo, MODULES):
-        if 'add_outputs' not in param_names(fn):
-            continue
-        cp = R.circuit_param(fn)
-        for c in calls_in(fn):
-            if isinstance(c.func, ast.Attribute) and call_name(c) in R.OUTPUT_IFACE and root_name(c.func.value) == cp:
-                n_guard += 1
-                tests = dominating_tests(m, fn, c)
-                ok = known_true(tests, 'add_outputs')
-                ck.check(ok, 'C09.OUT-GUARD', m, c, f'{q}: `{call_name(c)}` runs only when add_outputs is true',
-                         f'`{norm(c)[:90]}` changes the outputs of the host circuit even with add_outputs=False', construct=f'{q}: {norm(c)[:90]}')
-        # forwarding add_outputs to a callee must pass it on unchanged
-        for c in calls_in(fn):
-            for k in c.keywords:
-                if k.arg == 'add_outputs' and norm(k.value) not in ('add_outputs',):
-                    if not q.startswith('generate_'):
-                        n_guard += 1
-                        ck.bad('C09.OUT-GUARD', m, c, f'{q} forwards add_outputs unchanged', f'`{norm(c)[:90]}` passes add_outputs={norm(k.value)}', construct=f'{q}: forwards add_outputs={norm(k.value)}')
-    ck.need(n_guard >= 3, f'only {n_guard} guarded output changes found (3 confirmed)')
+    # OUT-GUARD (a shape rule: the gadget folds above and the add_plus_one fold run every function that has an add_outputs parameter with
+    # and without it on a host with outputs of its own and compare the output list)
+    with ck.soft('C09.GADGET / C09.FOLD (gadgets and add_plus_one instantiated with and without add_outputs)'):
+        n_guard = 0
+        for m, q, fn in R.gen_functions(repo, MODULES):
+            if 'add_outputs' not in param_names(fn):
+                continue
+            cp = R.circuit_param(fn)
+            for c in calls_in(fn):
+                if isinstance(c.func, ast.Attribute) and call_name(c) in R.OUTPUT_IFACE and root_name(c.func.value) == cp:
+                    n_guard += 1
+                    tests = dominating_tests(m, fn, c)
+                    ok = known_true(tests, 'add_outputs')
+                    ck.check(ok, 'C09.OUT-GUARD', m, c, f'{q}: `{call_name(c)}` runs only when add_outputs is true',
+                             f'`{norm(c)[:90]}` changes the outputs of the host circuit even with add_outputs=False', construct=f'{q}: {norm(c)[:90]}')
+            # forwarding add_outputs to a callee must pass it on unchanged
+            for c in calls_in(fn):
+                for k in c.keywords:
+                    if k.arg == 'add_outputs' and norm(k.value) not in ('add_outputs',):
+                        if not q.startswith('generate_'):
+                            n_guard += 1
+                            ck.bad('C09.OUT-GUARD', m, c, f'{q} forwards add_outputs unchanged', f'`{norm(c)[:90]}` passes add_outputs={norm(k.value)}', construct=f'{q}: forwards add_outputs={norm(k.value)}')
+        ck.need(n_guard >= 3, f'only {n_guard} guarded output changes found (3 confirmed)')
     R.check_add_only(ck, 'C09.ADD-ONLY', MODULES, host_in_rule='C09.HOST-IN')
     R.check_fresh_labels(ck, 'C09.ADD-ONLY', MODULES)
     R.check_fresh_generated(ck, 'C09.ADD-ONLY', MODULES)
@@ -106,8 +108,14 @@ def run(ck: Checker):
     R.check_args(ck, eff, 'C09.ARGS', MODULES)
     R.check_multiset(ck, 'C09.ARGS', MODULES)
     ck.floor('C09.ARGS', 25)
-    R.check_endian(ck, 'C09.ENDIAN', MODULES, public, ENDIAN_EXEMPT)
-    ck.floor('C09.ENDIAN', 8)
+    ck.rule('C09.ENDIAN-REL', 'endianness as a relation: for every public generator with a big_endian parameter the big-endian call on operands given most significant bit first returns the reversed result of the little-endian call (both instantiated on equal host circuits, every value of the operand bits)')
+    from .. import num_folds as _nfe
+    _compared = _nfe.fold_endian_rel(ck, 'C09.ENDIAN-REL', MODULES, public, ENDIAN_EXEMPT)
+    ck.floor('C09.ENDIAN-REL', 3)
+    # the shape rule (reverse at entry, convert every return) knows one way of writing it: soft where the relation was instantiated
+    with ck.soft('C09.ENDIAN-REL (both endiannesses instantiated and compared)'):
+        R.check_endian(ck, 'C09.ENDIAN', MODULES, public, ENDIAN_EXEMPT, names=_compared)
+    R.check_endian(ck, 'C09.ENDIAN', MODULES, public, ENDIAN_EXEMPT, but=_compared)
     n = R.check_placeholders(ck, 'C09.PLACEHOLDER', MODULES)
     ck.need(n >= 1, f'only {n} placeholder-using functions could be analysed')
     # folds last: structural rules above have already reported what they can if a template is not foldable
